@@ -77,7 +77,8 @@ func (w *world) fixtures() {
 				return
 			}
 			c.Nontrivial("fixture/" + name)
-			c.Outcome("gpg fixture accepted: " + kind)
+			c.Outcome("gpg fixture accepted")
+		c.Add("gpg_fixture_"+kind, 1)
 			return
 		}
 		if kind == "encasc" {
@@ -95,24 +96,26 @@ func (w *world) fixtures() {
 		}
 		var ring openpgp.KeyRing = w.ring
 		pass := []byte("pw")
-		var prompt openpgp.PromptFunction
+		var mkPrompt func() openpgp.PromptFunction
 		switch {
 		case kind == "sig" || kind == "sigbig" || kind == "sigtext":
 			ring = w.pubs
 		case name == "enc.locked.AES.gpg":
 			ring = lockedRing()
-			calls := 0
-			prompt = func(keys []openpgp.Key, symmetric bool) ([]byte, error) {
-				calls++
-				if calls > 2 {
-					return nil, fmt.Errorf("giving up")
-				}
-				for _, k := range keys {
-					if err := k.PrivateKey.Decrypt([]byte(pgpfix.LockedPassphrase)); err != nil {
-						return nil, err
+			mkPrompt = func() openpgp.PromptFunction {
+				calls := 0
+				return func(keys []openpgp.Key, symmetric bool) ([]byte, error) {
+					calls++
+					if calls > 2 {
+						return nil, fmt.Errorf("giving up")
 					}
+					for _, k := range keys {
+						if err := k.PrivateKey.Decrypt([]byte(pgpfix.LockedPassphrase)); err != nil {
+							return nil, err
+						}
+					}
+					return nil, nil
 				}
-				return nil, nil
 			}
 		}
 		for _, rs := range []int{0, 1, 23} {
@@ -120,7 +123,8 @@ func (w *world) fixtures() {
 				continue
 			}
 			var r readResult
-			if prompt != nil {
+			if mkPrompt != nil {
+				prompt := mkPrompt()
 				p, pv, st := vf.Protect(func() {
 					r.md, r.parseErr = openpgp.ReadMessage(bytes.NewReader(data), ring, prompt, nil)
 					if r.parseErr == nil {
@@ -161,7 +165,8 @@ func (w *world) fixtures() {
 			}
 		}
 		c.Nontrivial("fixture/" + name)
-		c.Outcome("gpg fixture accepted: " + kind)
+		c.Outcome("gpg fixture accepted")
+		c.Add("gpg_fixture_"+kind, 1)
 	})
 
 	// A message with hidden recipient (gpg --throw-keyids, key id 0) makes ReadMessage try every
